@@ -137,6 +137,16 @@ def _solve_case(case, spl, ps):
     uN = sorted(set(rng.sample(modes, rng.randint(0, min(2, len(modes))))))
     RHO = rs.standard_normal((nr, nth, nz)) + 1j * rs.standard_normal((nr, nth, nz))
     RHO2 = rs.standard_normal((nr, nth, nz)) + 1j * rs.standard_normal((nr, nth, nz))
+    # magnitude classes of the right-hand side (the map rho -> phi is linear: no absolute thresholds): everything tiny, or one
+    # weak mode and one weak axial plane next to O(1) data
+    rkind = case["seed"] % 5
+    if rkind == 1:
+        RHO, RHO2 = RHO * 1e-9, RHO2 * 1e-9
+    elif rkind == 2:
+        RHO, RHO2 = RHO * 1e-13, RHO2 * 1e-13
+    elif rkind == 3:
+        RHO[:, 2 % nth, :] *= 1e-10
+        RHO[:, :, nz - 1] *= 1e-11
     al, be = complex(rs.uniform(-2, 2), rs.uniform(-1, 1)), float(rs.uniform(-2, 2))
     quad = case["quad"]
 
@@ -158,7 +168,7 @@ def _solve_case(case, spl, ps):
         # mode independence: change rho in one mode only
         R3 = RHO.copy()
         mchg = 1 % nth
-        R3[:, mchg, :] += 1.0 + 2.0j
+        R3[:, mchg, :] += (1.0 + 2.0j) * float(np.abs(RHO).max())
         rho.getAllData()[:] = lo.expected_block(R3, L)
         phi.getAllData()[:] = np.nan
         solver.solveEquation(phi, rho)
